@@ -106,7 +106,7 @@ fn judge<T: Tier>(ctx: &mut Ctx, q: Q4<T>, exact_branch: Option<&'static str>) {
 }
 
 fn convert<T: Tier>(rep: &mut Report) {
-    let uq = alphabet::uq(rep.pick(0, 1));
+    let uq = alphabet::uq(1);
     rep.cases(
         "convert",
         T::NAME,
@@ -124,7 +124,7 @@ fn convert<T: Tier>(rep: &mut Report) {
 
 /// group closure: products, inverses and matrix round trips from generators
 fn group<T: Tier>(rep: &mut Report) {
-    let depth = rep.pick(2, 4);
+    let depth = rep.pick(3, 5);
     let all = alphabet::uq(0);
     let gens: Vec<Q4<T>> = all.iter().filter(|(_, d)| *d != 1).step_by(all.len() / 6).take(6).map(|(q, d)| std::array::from_fn(|j| T::q(q[j], *d))).collect();
     let ng = gens.len();
